@@ -158,19 +158,26 @@ class C15(Check):
                     ops.append(["hdr_req", rng.getrandbits(32), rng.getrandbits(32)])
                 elif x < 0.96:
                     ops.append(["hdr_ans", rng.getrandbits(32), rng.getrandbits(32)])
-                else:
+                elif rng.random() < 0.5:
                     ops.append(["hdr_reuse"])       # explicit header copied from an earlier request
+                else:
+                    # a construction that FAILS (invalid AVP list): on the explicit-header path it must
+                    # leave the identifiers of the request whose header it borrowed alone
+                    ops.append([rng.choice(["hdr_reuse_bad", "hdr_reuse_bad", "gen_bad"])])
             threads.append(ops)
         mode = rng.choice(["honest", "lowent", "constant", "cycle", "echo", "echo", "boundary", "replay_old"])
         long_history = (index % 40 == 39)
-        if long_history:
+        very_long = (index % 240 == 119)
+        if long_history or very_long:
             # a long process life: thousands of requests, then the source replays early values
-            threads = [[["bulk", rng.choice([4500, 6000])], ["gen"], ["typed", 0], ["gen"], ["typed", 1], ["gen"], ["gen"]]]
+            n_bulk = rng.choice([4500, 6000]) if not very_long else rng.choice([17000, 20000])
+            threads = [[["bulk", n_bulk], ["gen"], ["typed", 0], ["gen"], ["typed", 1], ["gen"], ["gen"]]]
             mode = "replay_old"
+            long_history = True
         src = {"mode": mode, "seed": rng.getrandbits(32), "k": rng.choice([2, 3, 4, 8]),
                "max_repeat": rng.choice([1, 2, 4, 8, 16]), "p": rng.choice([0.5, 0.8, 1.0])}
         if long_history:
-            src.update({"after": 4400, "p": 0.9, "max_repeat": 6})
+            src.update({"after": threads[0][0][1] - 100, "p": 0.9, "max_repeat": 6})
         pol = rng.choice(["sync", "line", "line", "opcode", "opcode"])
         if long_history:
             pol = "sync"
@@ -179,7 +186,7 @@ class C15(Check):
                  "opcode": pol == "opcode", "quantum": 1e-6}
         scn = {"threads": threads, "urandom": src, "sched": sched}
         if long_history:
-            scn["max_steps"] = 12_000_000
+            scn["max_steps"] = 40_000_000
         return scn
 
     def shrink(self, scn):
@@ -277,6 +284,26 @@ class C15(Check):
                         given = (h.hop_by_hop, h.end_to_end)
                         m = DiameterRequest(header=h) if kind == "hdr_req" else DiameterAnswer(header=h)
                         explicit = True
+                    elif kind in ("hdr_reuse_bad", "gen_bad"):
+                        prev = [c for c in created if c["kind"] in ("gen", "typed")]
+                        reg0 = (len(DiameterRequest.hop_by_hop_identifiers), len(DiameterRequest.end_to_end_identifiers))
+                        try:
+                            if kind == "hdr_reuse_bad" and prev:
+                                h = DiameterHeader(hop_by_hop=prev[-1]["hbh"], end_to_end=prev[-1]["e2e"])
+                                DiameterRequest(header=h, avps=[object()])
+                            elif kind == "hdr_reuse_bad":
+                                continue
+                            else:
+                                DiameterRequest(avps=["not an AVP"])
+                        except BaseException as e:      # noqa -- the failure itself is expected
+                            if type(e).__name__ in ("SimStop", "SimHang"):
+                                raise
+                        if kind == "hdr_reuse_bad" and len(scn["threads"]) == 1:
+                            reg1 = (len(DiameterRequest.hop_by_hop_identifiers), len(DiameterRequest.end_to_end_identifiers))
+                            if reg1 != reg0 or prev[-1]["hbh"] not in DiameterRequest.hop_by_hop_identifiers or \
+                                    prev[-1]["e2e"] not in DiameterRequest.end_to_end_identifiers:
+                                errors.append({"t": tid, "op": oi, "err": "RegistryAltered: a failed explicit-header construction changed the registries %s -> %s" % (reg0, reg1)})
+                        continue
                     elif kind == "hdr_reuse":
                         prev = [c for c in created if c["kind"] in ("gen", "typed")]
                         if prev:
@@ -347,7 +374,8 @@ class C15(Check):
             nreq = sum(1 for c in created if c["kind"] in ("gen", "typed"))
             nreg_h = len(DiameterRequest.hop_by_hop_identifiers) - len(base_hbh)
             nreg_e = len(DiameterRequest.end_to_end_identifiers) - len(base_e2e)
-            if not unfinished and not errors and (nreg_h != nreq or nreg_e != nreq):
+            nbad = sum(1 for ops_ in scn["threads"] for o in ops_ if o[0] == "gen_bad")
+            if not unfinished and not errors and not (nreq <= nreg_h <= nreq + nbad and nreq <= nreg_e <= nreq + nbad):
                 violations.append({"clause": "registry altered by objects that must not consume identifiers",
                                    "sig": "C15/registry-count",
                                    "detail": {"requests": nreq, "hbh_registry_growth": nreg_h,
